@@ -47,11 +47,18 @@ def plan(tier, seed):
     # heavy layouts first so that the pool stays busy
     specs.sort(key=lambda s: -(len(s["layout"]["ref_lens"]) + len(gen.hap_segments(s["layout"]["pattern"]))) * (3 if s["layout"]["scale"] == 1 else 1))
     specs[0]["extras"] = True
+    # one long reference: 12 reference segments s1..s12 (ids cross the 9 -> 10 digit boundary) and one haplotype segment, walks of <= 2 steps
+    specs.append({"layout": {"ref_lens": list(LONG_REF), "pattern": "one", "scale": 1}})
     return specs
+
+
+LONG_REF = (1, 2, 1, 1, 2, 1, 1, 1, 2, 1, 1, 1)
 
 
 def maxlen_for(L, tier):
     b = bounds(tier)
+    if len(L.ref_lens) > 4:
+        return 2
     if L.scale != 1:
         return b["max_steps_scaled"]
     if tier == "thorough" and len(L.segs) <= 3:
